@@ -37,8 +37,10 @@ OptRefsFast == Opt(FALSE, TRUE, "", FALSE, FALSE, TRUE, FALSE)
 OptDTags == Opt(FALSE, FALSE, "", TRUE, FALSE, FALSE, FALSE)
 OptRefsDTags == Opt(FALSE, TRUE, "", TRUE, FALSE, FALSE, FALSE)
 OptExt == Opt(FALSE, FALSE, "", FALSE, TRUE, FALSE, FALSE)
-Feat(mount, headDigest, refApiSrc, refApiTgt) ==
-  [mount |-> mount, headDigest |-> headDigest, refApiSrc |-> refApiSrc, refApiTgt |-> refApiTgt]
+FeatX(mount, headDigest, refApiSrc, refApiTgt, decline) ==
+  [mount |-> mount, headDigest |-> headDigest, refApiSrc |-> refApiSrc, refApiTgt |-> refApiTgt, decline |-> decline]
+Feat(mount, headDigest, refApiSrc, refApiTgt) == FeatX(mount, headDigest, refApiSrc, refApiTgt, FALSE)
+FeatDeclineOne == FeatX(TRUE, TRUE, TRUE, TRUE, TRUE)      \* mounts granted except for one blob
 FeatAll == Feat(TRUE, TRUE, TRUE, TRUE)
 FeatNoMount == Feat(FALSE, TRUE, TRUE, TRUE)
 FeatNoHeadDigest == Feat(TRUE, FALSE, TRUE, TRUE)
@@ -54,7 +56,7 @@ InitSets(s, p) == IF p = "samerepo" THEN {{}}
                   ELSE {{}, Universe(s), DOMAIN Shapes[s].mans, Shapes[s].blobs, Universe(s) \ {Shapes[s].root}}
 AllConfs ==
   {[shape |-> s, pair |-> p, mount |-> f.mount, headDigest |-> f.headDigest, refApiSrc |-> f.refApiSrc,
-    refApiTgt |-> f.refApiTgt, force |-> o.force, referrers |-> o.referrers, filter |-> o.filter,
+    refApiTgt |-> f.refApiTgt, decline |-> f.decline, force |-> o.force, referrers |-> o.referrers, filter |-> o.filter,
     dtags |-> o.dtags, inclext |-> o.inclext, fast |-> o.fast, plats |-> o.plats, refTgt |-> o.reftgt, init |-> i,
     tag0 |-> t,
     byDigest |-> b, tgtByDigest |-> d, maxFaults |-> MaxFaults, cancel |-> AllowCancel, crash |-> AllowCrash,
@@ -89,7 +91,8 @@ RECURSIVE BagSeq(_, _)
 BagSeq(f, S) == IF S = {} THEN <<>> ELSE LET x == CHOOSE x \in S : TRUE IN Rep(x, f[x]) \o BagSeq(f, S \ {x})
 P == INSTANCE CopyProp WITH Groups <- {"C03", "C04", "C14"}, hdr <- HdrOf, mkind <- PMKind, edges <- PEdges,
        refs <- PRefs, dtags <- PDTags, alias <- PAliasSet, init0 <- PInit0, cur <- PCur, written <- written, tagMoved <- tagMoved,
-       gets <- BagSeq(getc, DOMAIN getc), commits <- BagSeq(comc, DOMAIN comc), nBlobReq <- nBlobReq,
+       gets <- BagSeq(getc, DOMAIN getc), commits <- BagSeq(comc, DOMAIN comc),
+       declined <- (IF conf.decline THEN {Sh.order[1]} ELSE {}), nBlobReq <- nBlobReq,
        nManPut <- nManPut, nWrites <- nWrites, res <- ret, bad <- ""
 
 FaultFree == faults = 0 /\ ~ctxC /\ ~crashed
@@ -129,5 +132,6 @@ MCOptsDTags == {OptDefault, OptDTags}
 MCFeatsDefault == {FeatAll}
 MCFeatsCore == {FeatAll, FeatNoRefApi}
 MCFeatsMount == {FeatAll, FeatNoMount}
+MCFeatsMount3 == {FeatAll, FeatNoMount, FeatDeclineOne}
 MCFeatsAll == {FeatAll, FeatNoMount, FeatNoHeadDigest, FeatNoRefApi, FeatNoRefApiTgt}
 =============================================================================
